@@ -1,8 +1,13 @@
 """C17 — XML input is parsed with safe defaults.
 
 case = (protocol in {xml, soap11, soap12}, validator in {None, soft, lxml}, transport in
-        {server, wsgi}, base request id, position index, construct kind + parameters,
+        {server, wsgi, wsgi-swa}, base request id, position index, construct kind + parameters,
         canary number)
+
+transport wsgi-swa = the same document sent as the root part of a multipart/related message
+with one attachment (SOAP with attachments; soap11/soap12 only): Soap11.create_in_document
+then lets protocol/soap/mime.py parse the envelope -- a second parse site.  Signatures
+observed on that path carry the suffix |swa.
 
 A case denotes ONE attack document: the valid base request with an attack construct placed
 at one text position or one attribute-value position (namespace declarations included).
@@ -39,7 +44,8 @@ import time
 from hypothesis import strategies as st
 
 PROPERTY = "C17"
-RULE = ("cases = (protocol xml/soap11/soap12, validator None/soft/lxml, transport server/wsgi, "
+RULE = ("cases = (protocol xml/soap11/soap12, validator None/soft/lxml, transport server/wsgi/"
+        "wsgi-swa (multipart/related, soap only), "
         "base request echo/echo_obj/echo_arr, position, construct, parameters); positions = "
         "EVERY text slot (.text of every element, tail of every child) and EVERY attribute-value "
         "slot (attributes and namespace declarations) of the base request, enumerated; constructs "
@@ -48,24 +54,30 @@ RULE = ("cases = (protocol xml/soap11/soap12, validator None/soft/lxml, transpor
         "fan-out 2-10 x depth 2-12, quadratic blow-up, recursive entities, nesting 100..100000, "
         "up to 1e5 attributes, text/attribute values up to 12 MB, all enumerated per position; "
         "Hypothesis draws the construct parameters (URL spelling, PUBLIC/SYSTEM, fan-out, depth, "
-        "sizes, placement inside the base text, XML declaration, charset announcement). "
-        "Non-trivial = the document with the attack reference neutralised is well-formed and the "
-        "full document is well-formed at least up to the attack construct (permissive reference "
-        "parse), i.e. the parser under test meets the construct; distinct = (protocol, validator, "
-        "transport, construct, position kind)")
+        "sizes, placement inside the base text, XML declaration, charset announcement, UTF-8/"
+        "UTF-16). Non-trivial = the document with only the attack reference neutralised (DOCTYPE "
+        "kept) is well-formed under a permissive reference parser, so the parser under test "
+        "really meets the construct, and constructs that are well-formed XML by themselves parse "
+        "in full; distinct = (protocol, validator, transport, construct, position kind)")
 ASSUMPTIONS = [
     "strace sees every open/openat/connect of the subprocess (calibrated by a control in every subprocess)",
     "the bundled libxml2 (2.14) has no HTTP/FTP client: network contact cannot happen even with "
     "no_network=False, so the network oracle can only ever fire through lxml/spyne code",
     "libxml2 substitutes internal entities in attribute values on access: not asserted for attribute positions",
     "libxml2's own limits define 'bomb': expansion >= 2e7 bytes, element depth > 256",
-    "WsgiApplication is built with its default max_content_length (2 MiB)",
+    "WsgiApplication is built with its default max_content_length (2 MiB): larger documents "
+    "are answered Client.RequestTooLong before any parsing",
+    "only open/openat/connect are traced: a bare stat() of a canary path would go unnoticed",
+    "the CPU bound is process CPU time (rusage), the memory bound is the growth of the RSS "
+    "high-water mark (reset per document through /proc/self/clear_refs)",
 ]
 EXHAUSTIVE = {
     "quick": ["every text and attribute-value position of 3 base requests x 3 protocols x 3 "
-              "validators x 2 transports x every applicable construct kind (15 text / 12 attribute)"],
+              "validators x 3 transports (SwA: soap only) x every applicable construct kind "
+              "(15 text / 12 attribute)"],
     "thorough": ["every text and attribute-value position of 3 base requests x 3 protocols x 3 "
-                 "validators x 2 transports x every applicable construct kind (15 text / 12 attribute)"],
+                 "validators x 3 transports (SwA: soap only) x every applicable construct kind "
+                 "(15 text / 12 attribute)"],
 }
 SHRINKABLE = False      # cases are enumerated positions with small parameter records
 MIN_NONTRIVIAL = 2
@@ -78,7 +90,7 @@ BATCH = 1500
 
 PROTS = ("xml", "soap11", "soap12")
 VALIDATORS = (None, "soft", "lxml")
-TRANSPORTS = ("server", "wsgi")
+TRANSPORTS = ("server", "wsgi", "wsgi-swa")    # wsgi-swa: multipart/related (SOAP with attachments), soap only
 REQS = ("echo", "echo_obj", "echo_arr")
 NS_ENV = {"soap11": "http://schemas.xmlsoap.org/soap/envelope/",
           "soap12": "http://www.w3.org/2003/05/soap-envelope"}
@@ -98,9 +110,18 @@ LEAF_DECL = "C17BOMB&#76;EAF"
 NET_TOKEN = "CANARYNETTOKEN"
 
 
-def family(kind):
-    """construct family used in `escaped` signatures: every construct that leaves an unresolved
-    entity-reference node in the tree is the same root cause"""
+# Sites at which an exception escapes for ANY request of a certain class, whatever the attack
+# construct (every schema-invalid Soap12 request; every SwA request that is malformed or
+# carries an encoding declaration): the construct is not part of the root cause there.
+_ANY_SITES = ("protocol/soap/soap12.py:schema_validation_error_to_parent",
+              "protocol/soap/mime.py:_join_attachment")
+
+
+def family(kind, where=None):
+    """construct part of `escaped` signatures (root-cause granularity): every construct that
+    leaves an unresolved entity-reference node in the tree is the same root cause"""
+    if where in _ANY_SITES:
+        return "any"
     if kind.startswith(("ext-", "dtd-")) or kind in ("pe", "internal", "chain", "quad", "rec"):
         return "entity-ref"
     return kind
@@ -318,8 +339,13 @@ def build_doc(case, cdir, port):
         ref = "&r0;"
         d.bomb = True
     elif kind == "nest":
-        tag = "t:n" if p.get("ns") else "n"
-        ref = ("<%s>" % tag) * p["depth"] + p.get("leaf", "") + ("</%s>" % tag) * p["depth"]
+        if p.get("ns"):
+            tag = "c:n"
+            ref = '<c:n xmlns:c="urn:c17:nest">' + "<c:n>" * (p["depth"] - 1)
+        else:
+            tag = "n"
+            ref = "<n>" * p["depth"]
+        ref += p.get("leaf", "") + ("</%s>" % tag) * p["depth"]
         d.total_depth = sl["depth"] + p["depth"]
         d.must_syntax = d.total_depth > 260
     elif kind == "attrs":
@@ -335,14 +361,24 @@ def build_doc(case, cdir, port):
     else:
         payload = _place(sl["base"], ref, p.get("place", "replace"))
         neutral_payload = sl["base"]
+    is_text = sl["t"] == "T"
+    d.expect_wf = ((is_text and (kind.startswith("ext-") or kind in ("internal", "xinclude")))
+                   or kind == "attrs" or (kind == "hugetext" and is_text)
+                   or (kind == "nest" and d.total_depth < 2040))
     decl = _DECL[p.get("decl", "none")]
+    d.enc, d.cs = "utf-8", p.get("cs")
+    if (p.get("enc") == "utf-16" and kind not in ("hugetext", "attrs")
+            and case["transport"] != "wsgi-swa"):
+        d.enc, d.cs = "utf-16", None
+        decl = '<?xml version="1.0" encoding="UTF-16"?>'
     head = decl + doctype
     body, off = _render(segs, sl["seg"], payload, extra)
     nbody, _ = _render(segs, sl["seg"], neutral_payload, None)
     d.text = head + body
     d.neutral = head + nbody
     d.offset = len(decl) if doctype else len(head) + off
-    d.bytes = d.text.encode("utf-8")
+    d.bytes = d.text.encode(d.enc)
+    d.neutral_bytes = d.neutral.encode(d.enc)
     return d
 
 
@@ -351,6 +387,7 @@ def _common():
     return {"place": st.sampled_from(["replace", "middle", "prefix", "suffix"]),
             "decl": st.sampled_from(["none", "utf8", "plain", "standalone"]),
             "cs": st.sampled_from(["utf-8", None]),
+            "enc": st.sampled_from(["utf-8", "utf-8", "utf-8", "utf-16"]),
             "root": st.sampled_from(["x", "actual"])}
 
 
@@ -382,9 +419,11 @@ def _kind_params(kind):
                                           5000, 10000, 100000]),
                 "ns": st.booleans(), "leaf": st.sampled_from(["", "deep"])}
     if kind == "attrs":
-        return {"count": st.sampled_from([30000, 100000, 10000, 1000])}
+        # (lxml's attrib.items() is quadratic: the two large counts cost 3 s / >6 s CPU each)
+        return {"count": st.sampled_from([30000, 10000, 100000, 1000, 3000, 300, 5000, 100])}
     if kind == "hugetext":
-        return {"size": st.sampled_from([10000000, 1000000, 100000, 10000010, 12000000])}
+        return {"size": st.sampled_from([10000000, 100000, 1000000, 10000010, 30000, 2200000,
+                                         12000000, 300000, 1000, 5000000])}
     raise ValueError(kind)
 
 
@@ -480,12 +519,24 @@ def _faultcode_from_bytes(body):
     return None
 
 
+def _swa(envelope, cs):
+    """the request as the root part of a multipart/related (SwA) message with one attachment"""
+    b = b"C17MIMEBOUNDARY"
+    body = (b"--" + b + b"\r\nContent-Type: text/xml; charset=utf-8\r\nContent-ID: <root>\r\n\r\n"
+            + envelope + b"\r\n--" + b + b"\r\nContent-Type: application/octet-stream\r\n"
+            b"Content-Transfer-Encoding: base64\r\nContent-ID: <att1>\r\n\r\nQUJD\r\n--" + b + b"--\r\n")
+    ct = 'multipart/related; boundary="C17MIMEBOUNDARY"; type="text/xml"; start="<root>"'
+    if cs:
+        ct += "; charset=%s" % cs
+    return body, ct
+
+
 def _execute(apps, case, d):
     """-> dict(escaped, code, normal, args, reply, status)"""
     from .. import drive, findings as F
     app, wapp = apps.get(case["prot"], case["validator"])
     del apps.calls[:]
-    cs = case["p"].get("cs")
+    cs = d.cs
     r = {"escaped": None, "code": None, "normal": False, "status": None, "reply": b""}
     if case["transport"] == "server":
         o = drive.server_call(app, d.bytes, charset=cs)
@@ -499,8 +550,11 @@ def _execute(apps, case, d):
             else:
                 r["normal"] = True
     else:
-        ct = "text/xml; charset=%s" % cs if cs else "text/xml"
-        w = drive.wsgi_call(wapp, drive.environ(body=d.bytes, content_type=ct))
+        if case["transport"] == "wsgi-swa":
+            body, ct = _swa(d.bytes, cs)
+        else:
+            body, ct = d.bytes, ("text/xml; charset=%s" % cs if cs else "text/xml")
+        w = drive.wsgi_call(wapp, drive.environ(body=body, content_type=ct))
         if w.escaped is not None:
             et, where = F.exc_origin(w.escaped)
             r["escaped"] = (et, where, repr(w.escaped)[:300], "wsgi")
@@ -523,22 +577,26 @@ def _execute(apps, case, d):
 
 
 def _wf_upto(d):
-    """the non-trivial rule: permissive reference parse"""
+    """the non-trivial rule (permissive reference parse): the document with the attack
+    reference neutralised (DOCTYPE kept) is well-formed, so everything the parser under test
+    reads before and around the construct is well-formed and the construct is really met;
+    constructs that are well-formed XML by themselves must also parse in full"""
     from lxml import etree
 
     def P():
         return etree.XMLParser(resolve_entities=False, load_dtd=False, no_network=True,
                                huge_tree=True)
     try:
-        etree.fromstring(d.neutral.encode("utf-8"), P())
+        etree.fromstring(d.neutral_bytes, P())
     except etree.XMLSyntaxError:
         return False
+    if not d.expect_wf:
+        return True
     try:
         etree.fromstring(d.bytes, P())
         return True
-    except etree.XMLSyntaxError as e:
-        line, col = e.position
-        return line > 1 or col >= d.offset
+    except etree.XMLSyntaxError:
+        return False
 
 
 def _head(d):
@@ -549,6 +607,7 @@ def _head(d):
 def evaluate(case, d, r, cpu, mem_kb):
     """in-process oracles -> (fails, classes)"""
     fails = []
+    sfx = "|swa" if case["transport"] == "wsgi-swa" else ""   # a different parse site
     kind, sl = case["kind"], d.slot
     cfg = "%s/%s/%s" % (case["prot"], case["validator"], case["transport"])
     ctx = "%s %s at %s [%s]\ndocument: %s" % (cfg, kind, sl["where"], sl["pk"], _head(d))
@@ -557,11 +616,11 @@ def evaluate(case, d, r, cpu, mem_kb):
     if r["escaped"] is not None:
         et, where, rep, stage = r["escaped"]
         if et == "MemoryError":
-            fails.append(("C17|resource|%s|mem" % kind,
+            fails.append(("C17|resource|%s|mem%s" % (kind, sfx),
                           "MemoryError under RLIMIT_AS=%d escaped at %s (%s)\n%s"
                           % (RLIMIT_AS_BYTES, where, stage, ctx)))
         else:
-            fails.append(("C17|escaped|%s|%s|%s" % (et, where, family(kind)),
+            fails.append(("C17|escaped|%s|%s|%s" % (et, where, family(kind, where)),
                           "%s escaped from %s\n%s" % (rep, stage, ctx)))
         outcome = "escaped:" + et
     elif r["normal"]:
@@ -569,46 +628,53 @@ def evaluate(case, d, r, cpu, mem_kb):
     else:
         outcome = r["code"] or "?"
         if not (outcome.startswith("Client") or outcome.startswith("HTTP-4")):
-            fails.append(("C17|non-client-fault|%s" % kind,
+            fails.append(("C17|non-client-fault|%s%s" % (kind, sfx),
                           "reply is neither normal nor a Client fault: %s status=%s\n%s\nreply: %r"
                           % (outcome, r["status"], ctx, reply[:400])))
     # canary content
     for tok in d.tokens:
         if tok in argtxt:
-            fails.append(("C17|token-leaked-to-function|%s|%s" % (kind, sl["pk"]),
+            fails.append(("C17|token-leaked-to-function|%s|%s%s" % (kind, sl["pk"], sfx),
                           "user function received %r\n%s" % (tok, ctx)))
         if tok.encode() in reply:
-            fails.append(("C17|token-leaked-to-response|%s|%s" % (kind, sl["pk"]),
+            fails.append(("C17|token-leaked-to-response|%s|%s%s" % (kind, sl["pk"], sfx),
                           "reply contains %r\n%s\nreply: %r" % (tok, ctx, reply[:400])))
     # internal entity in text
     if kind == "internal" and sl["t"] == "T":
         if INT_MARK in argtxt or INT_MARK.encode() in reply:
-            fails.append(("C17|internal-entity-expanded|text",
+            fails.append(("C17|internal-entity-expanded|text" + sfx,
                           "internal entity expanded (%s)\n%s\nargs: %r reply: %r"
                           % ("function" if INT_MARK in argtxt else "reply", ctx,
                              r["args"][:3], reply[:300])))
     # bombs
-    if d.bomb:
+    # (an escaped exception is reported once, under `escaped`)
+    if d.bomb and r["escaped"] is None:
         expanded = LEAF_MARK in argtxt or LEAF_MARK.encode() in reply
-        if outcome != "Client.XMLSyntaxError" and (expanded or r["escaped"] is not None
-                                                   or not (r["normal"] or outcome.startswith("Client"))):
-            fails.append(("C17|bomb-not-rejected|%s" % kind,
+        if outcome != "Client.XMLSyntaxError" and (
+                expanded or not (r["normal"] or outcome.startswith("Client"))):
+            fails.append(("C17|bomb-not-rejected|%s%s" % (kind, sfx),
                           "outcome %s, expanded=%s\n%s" % (outcome, expanded, ctx)))
-    if d.must_syntax and outcome != "Client.XMLSyntaxError":
-        fails.append(("C17|bomb-not-rejected|%s" % kind,
+    if d.must_syntax and r["escaped"] is None and outcome not in (
+            "Client.XMLSyntaxError", "Client.RequestTooLong"):   # too long: never parsed
+        fails.append(("C17|bomb-not-rejected|%s%s" % (kind, sfx),
                       "element depth %d accepted: outcome %s\n%s"
                       % (d.total_depth, outcome, ctx)))
     if b"emory allocation failed" in reply or b"ut of memory" in reply:
-        fails.append(("C17|resource|%s|mem" % kind,
+        fails.append(("C17|resource|%s|mem%s" % (kind, sfx),
                       "allocation failure under RLIMIT_AS=%d reported in the reply\n%s"
                       % (RLIMIT_AS_BYTES, ctx)))
     if cpu > CPU_LIMIT_S:
-        fails.append(("C17|resource|%s|cpu" % kind, "%.2f s CPU for one document\n%s" % (cpu, ctx)))
+        fails.append(("C17|resource|%s|cpu%s" % (kind, sfx),
+                      "%.2f s CPU for one document\n%s" % (cpu, ctx)))
     if mem_kb > MEM_LIMIT_KB:
-        fails.append(("C17|resource|%s|mem" % kind,
+        fails.append(("C17|resource|%s|mem%s" % (kind, sfx),
                       "peak RSS grew by %d MiB for one document\n%s" % (mem_kb // 1024, ctx)))
     classes = ["construct:" + kind, "pos:" + sl["pk"], "cfg:" + cfg,
                "outcome:%s:%s:%s" % (kind, "attr" if sl["t"] == "A" else "text", outcome)]
+    if cpu > 0.5:
+        classes.append("cost:cpu>0.5s:" + kind)
+    if mem_kb > 64 * 1024:
+        classes.append("cost:mem>64MiB:" + kind)
     if kind == "internal" and sl["t"] == "A" and INT_MARK in argtxt:
         classes.append("info:internal-entity-substituted-in-attribute-value")
     return fails, classes
@@ -656,6 +722,7 @@ def _child_main(batch_path, out_path):
         base = {"prot": prot, "validator": validator, "transport": transport, "req": req,
                 "p": {"cs": "utf-8"}}
         d = Doc()
+        d.cs = "utf-8"
         d.bytes = _render(segs, -1, "")[0].encode()
         r = _execute(apps, base, d)
         if not r["normal"] or r["args"] != EXPECT[req] or r["ncalls"] != 1:
@@ -899,12 +966,13 @@ def run_batch(cases):
             where = "%s/%s/%s %s position %d" % (c["prot"], c["validator"], c["transport"],
                                                  c["kind"], c["pos"])
             r = results[started] or {"i": started, "fails": [], "classes": [], "nt": True}
+            sfx = "|swa" if c["transport"] == "wsgi-swa" else ""
             if sig_no == signal.SIGPROF:
-                r["fails"].append(("C17|resource|%s|cpu" % c["kind"],
+                r["fails"].append(("C17|resource|%s|cpu%s" % (c["kind"], sfx),
                                    "document burnt more than %d s CPU (subprocess killed by "
                                    "SIGPROF): %s" % (HARD_CPU_S, where)))
             elif sig_no in (signal.SIGSEGV, signal.SIGABRT, signal.SIGBUS):
-                r["fails"].append(("C17|crash|%s" % c["kind"],
+                r["fails"].append(("C17|crash|%s%s" % (c["kind"], sfx),
                                    "subprocess killed by signal %d while processing %s\n%s"
                                    % (sig_no, where, err[-500:])))
             else:
@@ -925,12 +993,14 @@ def run_batch(cases):
             where = "%s/%s/%s %s position %d" % (c["prot"], c["validator"], c["transport"],
                                                  c["kind"], c["pos"])
             r["fails"] = [tuple(f) for f in r["fails"]]
+            sfx = "|swa" if c["transport"] == "wsgi-swa" else ""
             if r.get("opened"):
-                r["fails"].append(("C17|file-opened|%s" % c["kind"],
-                                   "the server process opened the canary file: %s\n%s"
+                r["fails"].append(("C17|file-opened|%s%s" % (c["kind"], sfx),
+                                   "the server process called open() on the canary file / on the "
+                                   "canary URL taken as a path: %s\n%s"
                                    % (r["opened"][0], where)))
             if r.get("net"):
-                r["fails"].append(("C17|network-contact|%s" % c["kind"],
+                r["fails"].append(("C17|network-contact|%s%s" % (c["kind"], sfx),
                                    "the server process connected to the listener: %s\n%s"
                                    % (r["net"][0], where)))
         return results
@@ -949,7 +1019,8 @@ def _report(cases, results, rec):
             pk = r.get("pk") or "?"
             nt = "%s/%s/%s/%s/%s" % (c["prot"], c["validator"], c["transport"], c["kind"], pk)
         rec.case(c, failures=r["fails"], nontrivial=nt,
-                 classes=list(r.get("classes") or []) + ([] if r.get("nt") else ["trivial"]))
+                 classes=list(r.get("classes") or [])
+                 + ([] if r.get("nt") else ["trivial:%s:%s" % (c["kind"], r.get("pk"))]))
         allf.extend(r["fails"])
     return allf
 
@@ -958,11 +1029,13 @@ def shards(tier):
     if tier == "quick":
         groups, rounds = 1, 3
     else:
-        groups, rounds = 6, 25
+        groups, rounds = 5, 16
     out = []
     for prot in PROTS:
         for v in VALIDATORS:
             for t in TRANSPORTS:
+                if t == "wsgi-swa" and prot == "xml":
+                    continue
                 for req in REQS:
                     for g in range(groups):
                         out.append({"kind": "hyp", "prot": prot, "validator": v, "transport": t,
@@ -994,10 +1067,8 @@ def run_shard(shard, rec):
         results = run_batch(cases)
         _report(cases, results, rec)
         rec.count("strace_batches")
-        rec.count("cpu_s_in_documents", round(sum(r.get("cpu", 0) for r in results), 3))
-        rec.count("max_mem_growth_kb_seen", 0)
-        mx = max([r.get("mem", 0) for r in results] or [0])
-        rec.extra["max_mem_growth_kb_seen"] = max(rec.extra.get("max_mem_growth_kb_seen", 0), mx)
+        for c, r in zip(cases, results):
+            rec.count("cpu_s:" + c["kind"], round(r.get("cpu", 0), 3))
 
 
 class _NullRec(object):
